@@ -207,9 +207,11 @@ def with_dead_processes(recs):
     return recs + extra if extra else recs
 
 
-def run_stage(fn, logpath, kind, watchdog=60.0, poll=None):
+def run_stage(fn, logpath, kind, watchdog=60.0, poll=None, hostile=None):
     """Fork a child in its own session that runs fn() between stage_call/stage_ret events; monitor it.
-    Returns (outcome, info): outcome in 'returned', 'raised', 'stuck', 'watchdog', 'died'."""
+    Returns (outcome, info): outcome in 'returned', 'raised', 'stuck', 'watchdog', 'died'.
+    hostile: keyword arguments of sched.install - the stage process and all its workers are descheduled at random
+    between statements of the named toasty files (each injection is logged as a 'sched' event)."""
     to = instr_mp.scaled_timeout()
     poll = poll or max(0.05, 2.5 * to)
     pid = os.fork()
@@ -217,6 +219,10 @@ def run_stage(fn, logpath, kind, watchdog=60.0, poll=None):
         code = 0
         try:
             os.setsid()
+            if hostile:
+                from . import sched
+
+                sched.install(on_inject=lambda name, line, d: evlog.ev("sched", fn=name, line=line, ms=int(d * 1000)), **hostile)
             evlog.ev("stage_call")
             fn()
             evlog.ev("stage_ret")
@@ -325,4 +331,5 @@ def log_counters(recs):
     c["max_concurrent_callbacks"] = maxrun
     c["owner_puts_delayed_gt5ms"] = blocked_put
     c["workers"] = st["proc_run"]
+    c["statement_delays"] = sum(1 for r in recs if r["k"] == "sched")
     return dict(c)
